@@ -56,7 +56,8 @@ pub fn run_scenario(seed: u64, i: usize, cells: &[Cell], tier: Tier) -> Outcome 
     tcfg.tos = if cell.v6 { 0 } else { *r.pick(&[0u8, 0xb8, 0xff]) };
     tcfg.payload_pattern = *r.pick(&[0u8, 0x20, 0xff]);
     // lossless, in-order world: every miss is a codec miss.  Quotation shape varies per hop.
-    let dist = usize::from(hops_n) + 1;
+    // hops_n - 1 routers and the target at ttl hops_n = max-ttl (so that the target is probed too)
+    let dist = usize::from(hops_n);
     let hops: Vec<HopSpec> = (0..dist - 1)
         .map(|h| {
             let mut s = HopSpec::simple(scen::hop_addr(cell.v6, h % 200, h / 200), 100_000 + h as u64 * 1_000);
@@ -83,11 +84,33 @@ pub fn run_scenario(seed: u64, i: usize, cells: &[Cell], tier: Tier) -> Outcome 
             };
             s.rfc4884 = m;
             s.ext = e;
+            // some routers answer with destination unreachable (net / host / prohibited)
+            if r.chance(1, 10) {
+                s.router_unreach = Some(*r.pick(&[0u8, 1, 13]));
+            }
             s
         })
         .collect();
     let mut t = HopSpec::simple(tcfg.target, 500_000);
     t.quote = Quote::Full;
+    // the target's own error message (UDP: port unreachable) comes in every RFC 4884 shape too
+    let (m, e) = match r.below(4) {
+        0 => (Rfc4884::Compliant, random_ext(&mut r)),
+        1 => (Rfc4884::Legacy, random_ext(&mut r)),
+        2 => (Rfc4884::LengthOnly, Vec::new()),
+        _ => (Rfc4884::None, Vec::new()),
+    };
+    t.rfc4884 = m;
+    t.ext = e;
+    // TCP: in some worlds the target's handshake answer arrives just as the earlier probes'
+    // connection attempts time out (the pending-socket list is purged and searched in one call)
+    if cell.protocol == Protocol::Tcp && r.chance(1, 3) {
+        let to = r.range(5, 30);
+        tcfg.tcp_connect_timeout = ms(to);
+        t.delay_ns = ((to - 3) * 1_000_000, (to + 1) * 1_000_000);
+        // a small window paces the sends by the responses, which spreads the time-outs
+        tcfg.max_inflight = r.range(2, 6) as u8;
+    }
     let topo = Topology { hops, target: t, tcp: *r.pick(&[TcpMode::SynAck, TcpMode::Rst]) };
     let mut wcfg = world_cfg(topo, seed ^ i as u64);
     // TCP: local port collisions make the tracer re-issue probes under the next sequence; the
@@ -191,7 +214,7 @@ pub fn run_scenario(seed: u64, i: usize, cells: &[Cell], tier: Tier) -> Outcome 
 
 pub fn run(tier: Tier, seed: u64, only: Option<usize>) -> i32 {
     let mut rep = Report::new("C02", "exploration", tier, seed);
-    rep.rule = "scenario = cell x initial sequence x lossless in-order path of 254 routers + target (max-inflight 255, so every round issues 254 consecutive sequences; half of the TCP scenarios with 3..25% local port collisions, i.e. re-issued probes); per hop the quotation shape is drawn: IPv4 header+8 / +28 / +n / full (IPv6 always as much as fits), RFC 4884 none / length-only / compliant / legacy with MPLS and unknown objects, quoted TTL 0/1, quoted header checksum recomputed or stale, TOS rewritten, IPv4 options in the outer header; 6% of genuine responses are preceded by a near-miss forgery (other destination, other protocol, other identifier / fixed port, Dublin marker altered, other ICMP type/code) which must complete nothing; every probe whose genuine response was read must be Complete with the right responder; thorough walks initial sequences so that every issuable value is issued (per-cell counts under distinct_observed seq:<cell>)".into();
+    rep.rule = "scenario = cell x initial sequence x lossless in-order path of 253 routers + the target at ttl 254 = max-ttl (max-inflight 255, so every round issues 254 consecutive sequences; half of the TCP scenarios with 3..25% local port collisions, i.e. re-issued probes); per hop the quotation shape is drawn: IPv4 header+8 / +28 / +n / full (IPv6 always as much as fits), RFC 4884 none / length-only / compliant / legacy with MPLS and unknown objects, routers answering with destination unreachable (net / host / prohibited) instead of time exceeded, the target's port unreachable in every RFC 4884 shape, quoted TTL 0/1, quoted header checksum recomputed or stale, TOS rewritten, IPv4 options in the outer header; 6% of genuine responses are preceded by a near-miss forgery (other destination, other protocol, other identifier / fixed port, Dublin marker altered, other ICMP type/code) which must complete nothing; every probe whose genuine response was read must be Complete with the right responder; thorough walks initial sequences so that every issuable value is issued (per-cell counts under distinct_observed seq:<cell>)".into();
     rep.assumptions = vec![
         "IPv6 routers quote as much of the datagram as fits in 1280 octets (RFC 4443 2.4c); IPv4 error messages with RFC 4884 structure are capped at 576 octets (RFC 1812)".into(),
         "a forgery differs from the genuine quotation in one identity component and arrives 1..50us before it".into(),
